@@ -43,7 +43,7 @@ def load_known():
 def props_of_fn(unit_text, qual):
     """properties a function carries, from `//@@ props <regex> : C01 C02` directives"""
     res = set()
-    for mm in re.finditer(r'^//@@ props (\S+) : (.*)$', unit_text, flags=re.M):
+    for mm in re.finditer(r'^//@@ props (.+?) : (.*)$', unit_text, flags=re.M):
         if re.search(mm.group(1), qual):
             res |= set(mm.group(2).split())
     return res
